@@ -58,6 +58,8 @@ func hUpdates(m int) []gtfs.StopTimeUpdate {
 			Arrival:   hEvent(vr.T("up", j, ".arr")),
 			Departure: hEvent(vr.T("up", j, ".dep")),
 			NyctTrack: hOptStr(vr.T("up", j, ".track")),
+			// the journal does not look at the schedule relationship: a skipped stop is still a reported stop
+			ScheduleRelationship: gtfs.StopTimeUpdateScheduleRelationship(vr.Int(vr.T("up", j, ".rel"), 0, 3)),
 		})
 	}
 	return ups
